@@ -232,6 +232,11 @@ class Analysis:
             e = env.get(pl.local)
             if e is not None and e[0] == "ovf":
                 return e[1]
+        # `(_t as Some).0` of checked_sub/checked_add: on the Some side the payload is the exact result
+        if len(pl.proj) == 2 and isinstance(pl.proj[0], dict) and "v" in pl.proj[0] and isinstance(pl.proj[1], dict) and pl.proj[1].get("f") == 0:
+            e = env.get(pl.local)
+            if e is not None and e[0] == "optlin" and pl.proj[0].get("v") == 1:
+                return e[1]
         return None
 
     def base_local(self, place_or_op, env, hops=6):
@@ -293,7 +298,7 @@ class Analysis:
                 if val is None and op.place is not None:
                     pl = op.place
                     e = env.get(pl.local) if pl.is_local() else None
-                    if e is not None and e[0] in ("cmp", "bool", "range", "alias", "ovf"):
+                    if e is not None and e[0] in ("cmp", "bool", "range", "alias", "ovf", "optlin"):
                         val = e
                     elif pl.is_local() and (pl.local in self.len_of_local):
                         val = ("alias", pl)
@@ -415,6 +420,11 @@ class Analysis:
             bl = self.base_local(t.args[0], env)
             if bl is not None and t.args[0].place is not None:
                 dest_val = ("alias", t.args[0].place)
+        if name in ("checked_sub", "checked_add") and len(t.args) == 2 and ("num::" in callee):
+            a_ = self.lin_of_operand(t.args[0], env)
+            b_ = self.lin_of_operand(t.args[1], env)
+            if a_ is not None and b_ is not None and b_[1] == 0:
+                dest_val = ("optlin", ("lin", a_[1], a_[2] - b_[2] if name == "checked_sub" else a_[2] + b_[2]))
         if name == "is_empty" and t.args:
             bl = self.base_local(t.args[0], env)
             if bl is not None:
@@ -442,6 +452,16 @@ class Analysis:
                     d.assign(lv, f[1], f[2])
                     d.add(0, lv, 0)
                     d.add(lv, 0, MAXLEN)
+                elif name in ("push_str", "extend", "extend_from_slice", "append", "extend_from_within", "insert", "insert_str") and i == 0:
+                    # the sequence only grows: lower bounds on its length (x - len <= k) stay true, upper bounds go
+                    if not d.bottom:
+                        for k_ in range(d.n):
+                            if k_ != lv:
+                                d.m[lv][k_] = INF
+                        d.add(lv, 0, MAXLEN)
+                    dead = [k for k, ee in env.items() if _mentions(ee, {lv}, None)]
+                    for k in dead:
+                        del env[k]
                 elif name in ("len", "is_empty", "capacity", "as_mut_slice", "deref_mut", "index_mut", "iter_mut", "as_mut", "borrow_mut", "get_mut", "first_mut", "last_mut", "swap", "sort", "reverse", "fill", "copy_from_slice"):
                     pass
                 else:
@@ -694,6 +714,8 @@ def _mentions(e, vs, local):
         return any(f is not None and f[1] in vs for f in e[2])
     if k in ("alias", "alias_mut"):
         return local is not None and e[1].local == local
+    if k == "optlin":
+        return e[1][1] in vs
     if k == "ovfflag":
         return False
     return False
